@@ -3,5 +3,7 @@ CONSTANTS
   NT = 3
   NU = 1
   NA = 0
+  Throwing = FALSE
+  WithMake = TRUE
   Vals = {1, 2}
 INVARIANTS TypeOK WellFormed LastAgrees
